@@ -71,6 +71,8 @@ structure State (α : Type) where
   luCurrent : Bool := false
   currentC : α
   cnt : Counters
+  /-- the current step is being retried after a failed attempt -/
+  retrying : Bool := false
 
 structure Result (α : Type) where
   status : Status
@@ -131,7 +133,7 @@ def newtonLoop (L : Lits α) (P : Params α) : Nat → List α → (iters : Nat)
 
 /-- a step attempt is abandoned: halve (or scale) the step, count a rejection, start the next pass -/
 def retry (s : State α) (factor : α) (cnt : Counters) (luCurrent : Bool) : State α :=
-  { s with h := s.h * factor, nEqual := 0, luCurrent := luCurrent, cnt := { cnt with rejected := cnt.rejected + 1 } }
+  { s with h := s.h * factor, nEqual := 0, luCurrent := luCurrent, cnt := { cnt with rejected := cnt.rejected + 1 }, retrying := true }
 
 /-- `max_by(partial_cmp … unwrap_or(Equal))` over three factors: the last maximal element wins, an incomparable pair
     counts as equal -/
@@ -162,6 +164,7 @@ def result (P : Params α) (s : State α) (st : Status) (cnt : Counters) : Resul
 /-- step-size limits and the landing adjustment at the head of a pass: (state, h_signed, x_new), or an early exit -/
 def limits (L : Lits α) (P : Params α) (s : State α) : Sum (State α × α × α) (Result α) :=
   let s1 := if s.h > P.hmax then { s with h := P.hmax, nEqual := 0, luCurrent := false } else s
+  if s1.h < P.hmin ∧ P.hmin > L.zero ∧ s1.retrying = true then .inr (result P s1 .stepSizeTooSmall s1.cnt) else
   let s2 := if s1.h < P.hmin ∧ P.hmin > L.zero then { s1 with h := P.hmin, nEqual := 0, luCurrent := false } else s1
   let hSigned := P.direction * s2.h
   let xNew := s2.x + hSigned
@@ -195,7 +198,7 @@ def afterNewton (L : Lits α) (P : Params α) (s : State α) (o : PassOracle α)
     .inl (retry s factor cnt s.luCurrent)
   else
     let cnt := { cnt with accepted := cnt.accepted + 1 }
-    let s1 : State α := { s with x := xNew, nEqual := s.nEqual + 1, cnt := cnt }
+    let s1 : State α := { s with x := xNew, nEqual := s.nEqual + 1, cnt := cnt, retrying := false }
     if o.cb = .interrupt then .inr (result P s1 .userInterrupt cnt)
     else tail L P (afterCallback s1 o.cb) o safety
 
